@@ -2,9 +2,13 @@
 //! usage: vcheck <ID> [--tier quick|thorough] [--replay <file>] [extra…]
 mod bfs;
 mod common;
+mod en_checksum;
+mod en_paths;
+mod en_udp;
 mod mons;
 mod props_e1;
 mod refck;
+mod seq_fsreq;
 mod seq_segments;
 mod world;
 
@@ -57,6 +61,11 @@ fn main() {
         "C08" => props_e1::c08(&args),
         "C09" => seq_segments::run(&args),
         "C10" => props_e1::c10(&args),
+        "C12" => en_paths::run(&args),
+        "C13" => seq_fsreq::run(&args),
+        "C14" => en_checksum::run(&args),
+        "C16" => en_udp::run(&args),
+        "C17" => props_e1::c17(&args),
         "C18" => props_e1::c18(&args),
         "C19" => props_e1::c19(&args),
         "C20" => props_e1::c20(&args),
